@@ -6,6 +6,7 @@ CONSTANTS
     SrvKinds = {"connclose", "chclose"}
     Faults = {}
     ClientClose = TRUE
+    Compliant = FALSE
     Bug = {}
     BugCh0Unreachable = FALSE
 SPECIFICATION BSpec
